@@ -115,12 +115,19 @@ package deneb
 // process_attestation's participation effect (C01): every attesting index of the validated indexed form gets the applicable flags
 // added to what it had, in the registry of the target's epoch (current or previous); no other entry of that registry changes
 //@   assigns ghost(n_set_pflag)
-//@   ensures c01_flags_set@C01: err == nil ==> !st_slot_err(state) && (let P := ite(old(attestation.Data.Target.Epoch) == st_slot(state) / spec.SLOTS_PER_EPOCH, st_curpart(state), st_prevpart(state)) in (let f := att_flags7045(spec, state, old(attestation.Data), (st_slot(state) - old(attestation.Data.Slot)) % 18446744073709551616) in exists ia IdxAttT :: idxatt_ok(spec, epc, state, ia) && ia.Data == old(attestation.Data) && ia.Signature == old(attestation.Signature) && (forall j :: {ia.AttestingIndices[j]} 0 <= j && j < len(ia.AttestingIndices) ==> pflag_at(n_set_pflag, P, ia.AttestingIndices[j]) == bor8(old(pflag_at(n_set_pflag, P, ia.AttestingIndices[j])), f))))
-//@   ensures c01_flags_others@C01: err == nil ==> !st_slot_err(state) && (let P := ite(old(attestation.Data.Target.Epoch) == st_slot(state) / spec.SLOTS_PER_EPOCH, st_curpart(state), st_prevpart(state)) in (let f := att_flags7045(spec, state, old(attestation.Data), (st_slot(state) - old(attestation.Data.Slot)) % 18446744073709551616) in exists ia IdxAttT :: idxatt_ok(spec, epc, state, ia) && ia.Data == old(attestation.Data) && ia.Signature == old(attestation.Signature) && (forall k :: {pflag_at(n_set_pflag, P, k)} (forall j :: {ia.AttestingIndices[j]} 0 <= j && j < len(ia.AttestingIndices) ==> ia.AttestingIndices[j] != k) ==> pflag_at(n_set_pflag, P, k) == old(pflag_at(n_set_pflag, P, k)))))
+//@   ensures c01_flags_set@C01: err == nil ==> !st_slot_err(state) && (let P := ite(old(attestation.Data.Target.Epoch) == st_slot(state) / spec.SLOTS_PER_EPOCH, st_curpart(state), st_prevpart(state)) in (let f := att_flags7045(spec, state, old(attestation.Data), (st_slot(state) - old(attestation.Data.Slot)) % 18446744073709551616) in exists ia IdxAttT :: {idxatt_ok(spec, epc, state, ia)} idxatt_ok(spec, epc, state, ia) && ia.Data == old(attestation.Data) && ia.Signature == old(attestation.Signature) && (forall j :: {ia.AttestingIndices[j]} 0 <= j && j < len(ia.AttestingIndices) ==> pflag_at(n_set_pflag, P, ia.AttestingIndices[j]) == bor8(old(pflag_at(n_set_pflag, P, ia.AttestingIndices[j])), f))))
+//@   ensures c01_flags_others@C01: err == nil ==> !st_slot_err(state) && (let P := ite(old(attestation.Data.Target.Epoch) == st_slot(state) / spec.SLOTS_PER_EPOCH, st_curpart(state), st_prevpart(state)) in (let f := att_flags7045(spec, state, old(attestation.Data), (st_slot(state) - old(attestation.Data.Slot)) % 18446744073709551616) in exists ia IdxAttT :: {idxatt_ok(spec, epc, state, ia)} idxatt_ok(spec, epc, state, ia) && ia.Data == old(attestation.Data) && ia.Signature == old(attestation.Signature) && (forall k :: {pflag_at(n_set_pflag, P, k)} (forall j :: {ia.AttestingIndices[j]} 0 <= j && j < len(ia.AttestingIndices) ==> ia.AttestingIndices[j] != k) ==> pflag_at(n_set_pflag, P, k) == old(pflag_at(n_set_pflag, P, k)))))
+// ... and its proposer reward (C01): the block proposer's balance grows once, by numerator / ((WEIGHT_DENOMINATOR - PROPOSER_WEIGHT) * WEIGHT_DENOMINATOR / PROPOSER_WEIGHT)
+//@   opt mul=opaque
+//@   opt bor8=laws
+//@   ensures c01_proposer@C01: err == nil && old(epc.TotalActiveStakeSqRoot != 0 && spec.EFFECTIVE_BALANCE_INCREMENT != 0) ==> !st_bals_err(state) && !epc_proposer_err(epc, st_slot(state)) && n_set_bal == old(n_set_bal) + 1 && (let P := ite(old(attestation.Data.Target.Epoch) == st_slot(state) / spec.SLOTS_PER_EPOCH, st_curpart(state), st_prevpart(state)) in (let f := att_flags7045(spec, state, old(attestation.Data), (st_slot(state) - old(attestation.Data.Slot)) % 18446744073709551616) in exists ia IdxAttT :: {idxatt_ok(spec, epc, state, ia)} idxatt_ok(spec, epc, state, ia) && ia.Data == old(attestation.Data) && ia.Signature == old(attestation.Signature) && bal_at(n_set_bal, st_bals(state), epc_proposer(epc, st_slot(state))) == (bal_at(old(n_set_bal), st_bals(state), epc_proposer(epc, st_slot(state))) + att_num(old(n_set_pflag), P, ia.AttestingIndices, old(epc.EffectiveBalances), f, old(mul64(spec.EFFECTIVE_BALANCE_INCREMENT, spec.BASE_REWARD_FACTOR) / epc.TotalActiveStakeSqRoot), old(spec.EFFECTIVE_BALANCE_INCREMENT), len(ia.AttestingIndices)) / 448) % 18446744073709551616))
 //@   loop 1
 //@     invariant indexedAtt != nil && n_set_pflag >= old(n_set_pflag) && 0 <= applyFlags && applyFlags < 256
+//@     invariant n_set_bal == old(n_set_bal) && (applyFlags != 0 ==> n_set_pflag == old(n_set_pflag) + rangeindex + 1) && (applyFlags == 0 ==> n_set_pflag == old(n_set_pflag))
+//@     invariant baseRewardPerIncrement == old(mul64(spec.EFFECTIVE_BALANCE_INCREMENT, spec.BASE_REWARD_FACTOR) / epc.TotalActiveStakeSqRoot)
+//@     invariant proposerRewardNumerator == att_num(old(n_set_pflag), epochParticipation, indexedAtt.AttestingIndices, epc.EffectiveBalances, applyFlags, baseRewardPerIncrement, spec.EFFECTIVE_BALANCE_INCREMENT, rangeindex + 1)
 //@     invariant applyFlags == att_flags7045(spec, state, old(attestation.Data), (st_slot(state) - old(attestation.Data.Slot)) % 18446744073709551616)
-//@     invariant forall j :: {indexedAtt.AttestingIndices[j]} 0 <= j && j <= rangeindex ==> pflag_at(n_set_pflag, epochParticipation, indexedAtt.AttestingIndices[j]) == bor8(pflag_at(old(n_set_pflag), epochParticipation, indexedAtt.AttestingIndices[j]), applyFlags)
+//@     invariant forall j :: {pflag_at(n_set_pflag, epochParticipation, indexedAtt.AttestingIndices[j])} 0 <= j && j <= rangeindex ==> pflag_at(n_set_pflag, epochParticipation, indexedAtt.AttestingIndices[j]) == bor8(pflag_at(old(n_set_pflag), epochParticipation, indexedAtt.AttestingIndices[j]), applyFlags)
 //@     invariant forall k :: {pflag_at(n_set_pflag, epochParticipation, k)} pflag_at(n_set_pflag, epochParticipation, k) == pflag_at(old(n_set_pflag), epochParticipation, k) || pflag_at(n_set_pflag, epochParticipation, k) == bor8(pflag_at(old(n_set_pflag), epochParticipation, k), applyFlags)
 //@     invariant forall k :: {pflag_at(n_set_pflag, epochParticipation, k)} (forall j :: {indexedAtt.AttestingIndices[j]} 0 <= j && j <= rangeindex ==> indexedAtt.AttestingIndices[j] != k) ==> pflag_at(n_set_pflag, epochParticipation, k) == pflag_at(old(n_set_pflag), epochParticipation, k)
 
